@@ -163,6 +163,17 @@ class C20(vlib.Driver):
         add(loop="maon", algo="IPPO", num_envs=2, learn_step=4, max_steps=33, sum_scores=False, ids="unsorted", rev=True, evo=True, mut="hp")
         add(loop="maoff", algo="MATD3", num_envs=0, learn_step=1, max_steps=16, rev=True, grouped=True, ids="unsorted", checkpoint=8)
         add(loop="maon", algo="IPPO", num_envs=0, learn_step=2, evo_steps=6, max_steps=24, grouped=True, rev=True, sum_scores=False)
+        #     Dict observation spaces (multi-input encoders), vectorised and plain
+        add(loop="off", algo="DQN", dictobs=True, num_envs=2, learn_step=2, evo_steps=8, max_steps=16, evo=True, mut="arch", checkpoint=8)
+        add(loop="on", algo="PPO", dictobs=True, num_envs=0, learn_step=3, evo_steps=6, max_steps=12)
+        add(loop="off", algo="TD3", dictobs=True, num_envs=0, learn_step=1, evo_steps=5, max_steps=10)
+        #     hyper-parameters that start AT their configured bounds (learn_step 8 = max / 1 = min, batch_size 8 = max = capacity, 2 = min)
+        add(loop="off", algo="DQN", num_envs=2, learn_step=8, batch_size=8, mem_cap=8, evo_steps=12, max_steps=48, evo=True, mut="hp", pop=3, checkpoint=12)
+        add(loop="on", algo="PPO", num_envs=2, learn_step=1, batch_size=2, evo_steps=6, max_steps=30, evo=True, mut="hp", pop=3, elitism=False)
+        add(loop="bandit", algo="NeuralUCB", episode_steps=4, evo_steps=4, max_steps=16, evo=True, mut="hp", learn_step=8, batch_size=8, mem_cap=8)
+        #     per-agent scores while no training episode finishes within a generation (long episodes, short generations)
+        add(loop="maoff", algo="MADDPG", num_envs=2, learn_step=2, evo_steps=4, max_steps=8, ep_len=9, sum_scores=False, eval_steps=3)
+        add(loop="maon", algo="IPPO", num_envs=0, learn_step=2, evo_steps=4, max_steps=16, ep_len=9, sum_scores=False, eval_steps=3)
         #     activation / architecture mutations followed directly by a checkpoint (reloaded by the harness), two evaluation episodes
         add(loop="off", algo="DDPG", evo=True, mut="act", elitism=True, pop=3, max_steps=24, checkpoint=8, eval_loop=2, eval_steps=2)
         add(loop="on", algo="PPO", evo=True, mut="arch", elitism=True, pop=3, learn_step=4, evo_steps=8, max_steps=24, checkpoint=8, save_elite=True)
@@ -524,7 +535,7 @@ class C20(vlib.Driver):
         labs = [f"loop={case['loop']}", f"algo={case['algo']}", f"env={'plain' if plain(case) else 'vec' + str(case['num_envs'])}",
                 f"memory={case.get('memory', 'uniform') if case['loop'] == 'off' else '-'}",
                 f"evolution={case.get('mut') if case.get('evo') else 'off'}", f"checkpoint={'on' if case.get('checkpoint') else 'off'}",
-                f"obs={'image+swap_channels' if case.get('image') else 'vector'}",
+                f"obs={'image+swap_channels' if case.get('image') else 'dict' if case.get('dictobs') else 'vector'}",
                 f"generations={min(len(obs.get('gens', [])), 5)}{'+' if len(obs.get('gens', [])) > 5 else ''}",
                 f"completed={bool(obs.get('completed')) and not obs.get('error')}"]
         ne, ls = ne_of(case), case["learn_step"]
